@@ -105,11 +105,12 @@ Fixpoint dangling (s : bytes) : bool :=
     else dangling r
   end.
 
+Definition is_comment (line : bytes) : bool :=
+  match line with b :: _ => (b =? 35)%N | [] => false end.
+
 Definition git_parse_line (line : bytes) : option gpat :=
   if dangling line then None else
-  match line with
-  | 35%N :: _ => None
-  | _ =>
+  if is_comment line then None else
     let us := drop_trailing_spaces (to_units line) in
     let '(neg, us) := match us with
                       | u :: r => if raw u 33 then (true, r) else (false, us)
@@ -127,8 +128,7 @@ Definition git_parse_line (line : bytes) : option gpat :=
         if anchored then map (fun c => if is_dstar c then CDStar else CSimple (parse_comp (S (length c)) c)) comps
         else CDStar :: map (fun c => CSimple (parse_comp (S (length c)) c)) comps in
       Some (mk_gpat neg dironly cps)
-    end
-  end.
+    end.
 
 (* ---- matching ---- *)
 Definition up (b : N) : bool := (65 <=? b)%N && (b <=? 90)%N.
